@@ -222,6 +222,50 @@ def one_case(ctx, rng, idx, mem, deadline):
                     ctx.inconclusive_case("loopback probe incomplete after 400 fair rounds + 0.4 s (wall-clock watchdog)")
                     return
             probe_ok = len(arrived) == n + 1
+        # ---- second life (real sockets): the connection is ended by a `Connection: close` request, the same patron is
+        # connected again and the new persistent connection carries a sequence of its own -- streamed responses first
+        if not mem and probe_ok and not escaped and srng.random() < 0.6:
+            import socket as _socket
+            base = len(arrived)
+            seen_base = len(seen)
+            extra = []
+            for j in range(3):
+                rid = "%s-x%d" % (tag, j)
+                rq = {"id": rid, "method": "GET", "path": "/again/%d" % j, "qargs": [], "kind": "none",
+                      "headers": [("X-Vf-Id", rid)] + ([("Connection", "close")] if j == 0 else [])}
+                specs[rid] = hg.gen_appspec(rng, rid, shapes=("fixed",) if j == 0 else ("stream-gaps", "stream", "write"), statuses=[200])
+                extra.append(rq)
+            send_request(patron, extra[0])
+
+            def rounds(until, cap=400):
+                k = 0
+                while k < cap and not until() and not escaped:
+                    k += 1
+                    step("p.all", patron.serviceAll)
+                    step("v.all", valet.serviceAll)
+                    store.advanceStamp(0.001)
+                    time.sleep(0.0003)
+                return until()
+            if rounds(lambda: len(arrived) > base and conn.cutoff):
+                step("p.all", patron.serviceAll)
+                conn.reopen()
+                conn.cs.setsockopt(_socket.IPPROTO_TCP, _socket.TCP_NODELAY, 1)
+                if rounds(lambda: conn.connected):
+                    for rq in extra[1:]:
+                        send_request(patron, rq)
+                    done = rounds(lambda: len(arrived) >= base + 3, cap=800)
+                    ctx.hit("sequences_continued_after_reconnect")
+                    got = arrived[base + 1:base + 3]
+                    want = [specs[rq["id"]]["expect"] for rq in extra[1:]]
+                    ok = done and len(got) == 2 and all(
+                        not a["errored"] and a["status"] == e["status"] and a["body"] == e["body"] and a["headers"].get("x-vf-id") == rq["id"]
+                        for a, e, rq in zip(got, want, extra[1:]))
+                    ctx.check(ok and not escaped, "keepalive/after-reconnect/responses-differ",
+                              "after the patron was connected again, its two requests did not get their two responses in order "
+                              "(got %d, errored: %s)" % (len(got), [a["errored"] for a in got]),
+                              lambda: wit({"arrived_after_reconnect": got, "expected": want, "escaped": escaped}))
+            del arrived[base:]          # (the verdicts below are about the first connection)
+            del seen[seen_base:]
         ctx.event(steps + fair)
         # ---- wire view (memory transport records every byte the server sent)
         wire = None
@@ -337,6 +381,7 @@ def run(ctx):
     ctx.floor("transport:loopback", total // 15)
     ctx.floor("transport:memory", total // 4)
     ctx.floor("probe_ok", total // 3)
+    ctx.floor("sequences_continued_after_reconnect", total // 40)
     ctx.floor("partial_sends", total)
     ctx.floor("needed_fair_rounds", total // 10)
     ctx.floor("events", total * 50)
